@@ -210,6 +210,93 @@ def accumulated_min(tier):
     return n, fails
 
 
+def closure_one(case):
+    """the delays cached for multi-hop trigger paths (World.cache_triggering_ancestors) against applying the delays of
+    the hops one after the other: for every pair (src, dest) joined by a trigger path and every departure time t,
+    t + cached(src, dest) must be the earliest of the hop-by-hop arrival times over the simple paths"""
+    from .. import simlib
+    from mosaik.exceptions import ScenarioError
+    desc = dict(kind='call', law='path_closure', case=case)
+    world = simlib.build_world(case)
+    try:
+        try:
+            world.ensure_no_dataflow_cycles()
+        except ScenarioError:
+            return 'skip'
+        world.cache_triggering_ancestors()
+        hops = {}; plen = {}
+        for sid, sim in world.sims.items():
+            for port, l in sim.triggers.items():
+                for dest, d in l:
+                    hops.setdefault(sid, []).append((dest.sid, d)); plen[sid] = d.pre_length
+        def paths_to(src, dest):
+            # simple paths src -> dest (simple cycles for src == dest)
+            def go(cur, seen):
+                for (nx, d) in hops.get(cur, []):
+                    if nx == dest: yield [d]
+                    if nx not in seen and nx != dest:
+                        for rest in go(nx, seen | {nx}): yield [d] + rest
+            return list(go(src, {src}))
+        for dsid, dsim in world.sims.items():
+            cached = {a.sid: d for a, d in dsim.triggering_ancestors.items()}
+            for ssid in world.sims:
+                ps = paths_to(ssid, dsid)
+                if not ps and ssid not in cached: continue
+                if bool(ps) != (ssid in cached):
+                    return dict(desc, observed=f'{ssid}->{dsid}: {len(ps)} trigger path(s), cached delay: {cached.get(ssid)}')
+                L = plen[ssid]
+                for t in itertools.islice(itertools.product((0, 1, 3), *[(0, 1, 2)] * (L - 1)), 40):
+                    t = TT(*t)
+                    arr = []
+                    for pth in ps:
+                        x = t
+                        for d in pth: x = x + d
+                        arr.append(x)
+                    if len({len(x) for x in arr}) != 1: return 'skip'
+                    if t + cached[ssid] != min(arr):
+                        return dict(desc, observed=f'{ssid}->{dsid}: departure {t} arrives at {min(arr)} hop by hop, the cached delay {cached[ssid]} gives {t + cached[ssid]}')
+    except AssertionError as e:
+        if 'incomparable' in str(e): return 'skip'
+        return dict(desc, observed=f'AssertionError: {e}'[:200])
+    finally:
+        world.shutdown()
+    return None
+
+
+def path_closure(tier, rng):
+    from .. import gen, tracelib
+    n = 0; fails = []
+    total = 260 if tier == 'quick' else 4000
+    k = 0
+    while n < total and k < total * 6:
+        k += 1
+        r = rng.random()
+        if r < 0.5:
+            case = gen.gen_case(rng, groups=True)
+        else:
+            # chains through groups of equal depth, nested groups and the top level, every hop plain / time-shifted / weak
+            places = [[0], [1], [0, 0], [0, 1], []]
+            m = rng.randint(3, 5)
+            grp = [list(rng.choice(places[:2] if rng.random() < 0.5 else places)) for _ in range(m)]
+            edges = []
+            for a in range(m - 1):
+                for b in ([a + 1] + ([rng.randrange(m)] if rng.random() < 0.4 else [])):
+                    if a == b: continue
+                    common_g = bool(grp[a]) and bool(grp[b]) and grp[a][0] == grp[b][0]
+                    kind = rng.choice(['p', 'p', 'ts'] + (['w', 'w'] if common_g else []))
+                    edges.append(dict(a=a, b=b, sa=rng.choice(['eo', 'e2']), da=rng.choice(['ti', 't2']), kind=kind, shift=rng.choice([1, 2]) if kind == 'ts' else 0, init=False))
+            case = dict(n=m, types=['hybrid'] * m, grp=grp, edges=edges, until=1, beh=[{'type': 'hybrid'} for _ in range(m)], init=[], maxloop=100)
+        if not tracelib.convex(case): continue
+        try:
+            f = closure_one(case)
+        except Exception as e:
+            f = dict(kind='call', law='path_closure', case=case, observed=f'{type(e).__name__}: {e}'[:200])
+        if f == 'skip': continue
+        n += 1
+        if f: fails.append(f)
+    return n, fails
+
+
 def run(out, info, tier, seed):
     rng = random.Random(seed)
     out.checker_cmd = 'python harness/py2coq.py /repo coq/Gen && make -C coq (full .vo build) && coqc -Q coq MV coq/Props/C08.v'
@@ -242,6 +329,8 @@ def run(out, info, tier, seed):
     n, nontriv, fails, known = laws(ivs, times, rng, budget)
     n_acc, acc_fails = accumulated_min(tier)
     n += n_acc; fails = fails + acc_fails
+    n_clo, clo_fails = path_closure(tier, random.Random(seed + 17))
+    n += n_clo; fails = fails + clo_fails
     for f in fails[:1]:
         out.violations.append(f)
     kf = {f['id']: f for f in common.known_findings('C08')}
@@ -252,7 +341,8 @@ def run(out, info, tier, seed):
     out.coverage = {'evaluations': n + ncorr, 'distinct_nontrivial': nontriv,
                     'rule': f'all TieredIntervals with length<= {maxlen}, pre<= {maxlen}, tiers in {list(vals)} ({len(ivs)}) and all times of those lengths; '
                             'laws evaluated on every equal-shape pair (triples/compositions sampled to a budget); non-trivial = strictly ordered pair, '
-                            'non-zero delay, or defined composition; correspondence on a seeded sample of pairs; the minimum over the delays of 2-4 parallel connections of one pair in every connect order (flat and in a group)',
+                            'non-zero delay, or defined composition; correspondence on a seeded sample of pairs; the minimum over the delays of 2-4 parallel connections of one pair in every connect order (flat and in a group); '
+                            f'the delays World.cache_triggering_ancestors caches for multi-hop trigger paths against hop-by-hop application on {n_clo} convex scenarios (groups of equal depth, nested groups)',
                     'samples': [{'law': 'trichotomy', 'a': list(ivs[len(ivs) // 2]), 'b': list(ivs[len(ivs) // 2 + 1])},
                                 {'correspondence_request': f'g_ilt {s_int(ivs[5])} {s_int(ivs[7])}'}],
                     'traces_validated_against_impl': ncorr, 'exhaustive': True,
@@ -271,6 +361,8 @@ def replay(path, out):
         bad = res == 'assert' or sum(map(bool, res)) != 1
     elif r['law'].startswith('smaller'):
         t = TT(*r['t']); res = (A < B, t + A, t + B); print('a<b, t+a, t+b:', res); bad = res[0] and res[1] > res[2]
+    elif r['law'] == 'path_closure':
+        f = closure_one(r['case']); print(f['observed'] if isinstance(f, dict) else 'cached delays agree with hop-by-hop application'); bad = isinstance(f, dict)
     elif r['law'] == 'accumulated_min':
         f = acc_one(r['grouped'], [tuple(x) for x in r['connections']]); print(f['observed'] if f else 'stored delay is the minimum'); bad = f is not None
     else:
